@@ -1,21 +1,31 @@
 (* C09: what `dud run` decides (Model/Index.v [run_stage], recursive = true).
 
    Part 1  C09_decision          the doRun bit of a visited stage, as an IFF with [stale_reason]
+                                 (= [input_reason] or an out-of-date output), and sp in log iff doRun
+                                 and a command.  Local: no assumption on exec or on the index.
    Part 2  put_frame             Fs.put changes nothing at a path incomparable with the one written
-   Part 3  C09_executed_or_clean after a successful run every visited stage either ran or is clean IN
-                                 THE FINAL ROOT (frame argument; needs exec_framed + idx_wf)
-   Part 4  C09_rerun_*           a run from a clean state
-   Part 5  examples / counterexamples (vm_compute)
+                                 (no sortedness of entry lists needed)
+   Part 3  C09_executed_or_clean after a successful run from the empty state every visited stage either
+                                 ran (and, with a command, was executed after the executed owners of
+                                 its inputs) or is clean IN THE FINAL ROOT.  Frame argument: needs
+                                 [exec_framed] and [idx_wf].  Invariant [Inv]; [C09_inv_preserved].
+   Part 4  C09_rerun_sources, C09_rerun_sources_only, C09_rerun_quiet: a run from an all-clean state
+   Part 5  the premises are satisfiable ([ex_exec_framed], [idx_wfb_sound]); module C09Examples:
+           a 2-stage chain (run; commit; run is quiet) and the counterexamples below, by vm_compute.
 
    Deviations from the informal statement (each with a machine-checked counterexample in Part 5):
    - the frame premise "every path that is not equal to or below an output keeps its entry" is
-     unsatisfiable (the ancestors of an output, e.g. the root [], do change): [exec_framed] speaks
-     about the paths that are INCOMPARABLE with every output ([incomp]);
-   - "a run from a clean state executes only the stages that have a command and no inputs" is false:
-     such a stage has doRun = true, and doRun propagates to everything downstream of it
-     (ran[ownerPath] in run.go).  The true statement ([C09_rerun_sources]): the stages with doRun are
-     exactly those downstream-or-equal of such a SOURCE stage.  [C09_rerun_quiet]: with no source
-     upstream nothing at all is executed. *)
+     unsatisfiable by an exec that writes anything (the directories above an output, e.g. the root
+     [], change with it: [exec_framed_literal_identity], [literal_frame_fails]).  [exec_framed]
+     speaks about the paths that are INCOMPARABLE with every output ([incomp]); accordingly [idx_wf]
+     asks the outputs of a stage to be incomparable with the outputs and plain inputs of the others.
+   - "a run from a clean state executes only the stages that have a command and no inputs; a stage
+     that has inputs is not executed" is false ([source_chain_second_run_not_quiet]): such a SOURCE
+     stage has doRun = true and doRun propagates to everything downstream (ran[ownerPath] in
+     run.go).  True statements: [C09_rerun_sources] (doRun exactly for the stages at or downstream
+     of a source), [C09_rerun_sources_only] (the informal statement, when no source owns an input),
+     [C09_rerun_quiet] (no source at or upstream of a target: nothing is executed, root unchanged;
+     needs neither exec_framed nor idx_wf). *)
 From Coq Require Import NArith List Bool Lia Relations.
 From DudV Require Import Base.Bytes Base.Json Base.GoPath Model.Fs Model.Cache Model.Stage Model.Index.
 From DudV Require Import Proofs.PipelineProofs.
@@ -254,27 +264,32 @@ Section Decision.
              ++ right. right. exists a0, op0, up0. split; [exact Ha0|]. split; assumption.
   Qed.
 
-  (* why a stage is considered out of date.  [root1] is the root after the loop over the inputs
-     (= after all upstream visits); [ranF] is the final visited map. *)
-  Inductive stale_reason (f : nat) (stack : list bytes) (sp : bytes) (stg : stage)
+  (* why a stage is considered out of date before its outputs are looked at.  [ranF] is the final
+     visited map. *)
+  Inductive input_reason (f : nat) (stack : list bytes) (sp : bytes) (stg : stage)
             (root : node) (ran : list (bytes * bool)) (log : list bytes)
-            (root1 : node) (ranF : list (bytes * bool)) : Prop :=
-  | SR_source : s_cmd stg <> [] -> s_inputs stg = [] -> stale_reason f stack sp stg root ran log root1 ranF
-  | SR_def : (s_cs stg = [] \/ def_checksum H stg <> s_cs stg) ->
-             stale_reason f stack sp stg root ran log root1 ranF
-  | SR_plain pre a post root_a ran_a log_a d_a :
+            (ranF : list (bytes * bool)) : Prop :=
+  | IR_source : s_cmd stg <> [] -> s_inputs stg = [] -> input_reason f stack sp stg root ran log ranF
+  | IR_def : (s_cs stg = [] \/ def_checksum H stg <> s_cs stg) ->
+             input_reason f stack sp stg root ran log ranF
+  | IR_plain pre a post root_a ran_a log_a d_a :
       s_inputs stg = pre ++ a :: post -> find_owner idx (a_path a) = None ->
       runI f (sp :: stack) pre root ran log (do0_of H stg) = Ok (root_a, ran_a, log_a, d_a) ->
       short_top H a root_a c = Ok false ->
-      stale_reason f stack sp stg root ran log root1 ranF
-  | SR_upstream a op up :
+      input_reason f stack sp stg root ran log ranF
+  | IR_upstream a op up :
       In a (s_inputs stg) -> find_owner idx (a_path a) = Some (op, up) -> alookup op ranF = Some true ->
-      stale_reason f stack sp stg root ran log root1 ranF
-  | SR_checksum a op up :
+      input_reason f stack sp stg root ran log ranF
+  | IR_checksum a op up :
       In a (s_inputs stg) -> find_owner idx (a_path a) = Some (op, up) -> a_cs a <> a_cs up ->
-      stale_reason f stack sp stg root ran log root1 ranF
-  | SR_output : any_stale H (s_outputs stg) root1 c = Ok true ->
-                stale_reason f stack sp stg root ran log root1 ranF.
+      input_reason f stack sp stg root ran log ranF.
+
+  (* ... or some output is out of date in [root1], the root after the loop over the inputs
+     (= after all upstream visits) *)
+  Definition stale_reason (f : nat) (stack : list bytes) (sp : bytes) (stg : stage)
+             (root : node) (ran : list (bytes * bool)) (log : list bytes)
+             (root1 : node) (ranF : list (bytes * bool)) : Prop :=
+    input_reason f stack sp stg root ran log ranF \/ any_stale H (s_outputs stg) root1 c = Ok true.
 
   Lemma def_ok_dec stg : def_ok H stg \/ (s_cs stg = [] \/ def_checksum H stg <> s_cs stg).
   Proof.
@@ -291,6 +306,8 @@ Section Decision.
     exists root1 ran1 log1 do1 d,
       runI f (sp :: stack) (s_inputs stg) root ran log (do0_of H stg) = Ok (root1, ran1, log1, do1) /\
       alookup sp ran' = Some d /\
+      (do1 = true <-> input_reason f stack sp stg root ran log ran') /\
+      (do1 = false -> any_stale H (s_outputs stg) root1 c = Ok d) /\
       (d = true <-> stale_reason f stack sp stg root ran log root1 ran') /\
       (In sp log' <-> d = true /\ s_cmd stg <> []) /\
       ran' = ins_sorted sp d ran1 /\
@@ -323,38 +340,36 @@ Section Decision.
       - destruct (exec sp stg root1 c) as [root2|]; [|discriminate]. inversion Hrun; subst. auto.
       - inversion Hrun; subst. auto. }
     destruct Hranlog as [Hran' [Hlog' Hroot']].
+    assert (Hother : forall op, alookup op ran1 <> None -> alookup op ran' = alookup op ran1).
+    { intros op Hop. rewrite Hran'. apply alookup_ins_other. intros Heq. subst op. contradiction. }
+    assert (Hir : do1 = true <-> input_reason f stack sp stg root ran log ran').
+    { rewrite Hdo1. split.
+      - intros [H0|[Hp|Ho]].
+        + apply do0_true in H0 as [[Hc Hi]|Hnd]; [apply IR_source; assumption|].
+          apply IR_def. destruct (def_ok_dec stg) as [Hok|Hbad]; [contradiction|exact Hbad].
+        + destruct Hp as [pre [a [post [ra [rna [la [da [Heq [Hfo [Hpre Hst]]]]]]]]]].
+          eapply IR_plain; eassumption.
+        + destruct Ho as [a [op [up [Ha [Hfo [Hup|Hcs]]]]]].
+          * eapply IR_upstream; [exact Ha|exact Hfo|].
+            rewrite Hother; [exact Hup|]. eapply Hown1; eassumption.
+          * eapply IR_checksum; eassumption.
+      - intros [Hc Hi|Hbad|pre a post ra rna la da Heq Hfo Hpre Hst|a op up Ha Hfo Hup|a op up Ha Hfo Hcs].
+        + left. apply do0_true. left. split; assumption.
+        + left. apply do0_true. right. intros [Hne Heq]. destruct Hbad as [Hb|Hb]; contradiction.
+        + right. left. exists pre, a, post, ra, rna, la, da. repeat split; assumption.
+        + right. right. exists a, op, up. split; [exact Ha|]. split; [exact Hfo|].
+          left. rewrite <- Hother; [exact Hup|]. eapply Hown1; eassumption.
+        + right. right. exists a, op, up. split; [exact Ha|]. split; [exact Hfo|]. right. exact Hcs. }
     split; [reflexivity|]. split; [rewrite Hran'; apply alookup_ins_same|].
+    split; [exact Hir|].
+    split; [intros Hf; subst do1; exact Hd2|].
     split; [|split; [|split; [exact Hran'|split; [exact Hlog'|exact Hroot']]]].
     - (* the reasons *)
-      assert (Hother : forall op, alookup op ran1 <> None -> alookup op ran' = alookup op ran1).
-      { intros op Hop. rewrite Hran'. apply alookup_ins_other. intros Heq. subst op. contradiction. }
-      split.
-      + intros Hdt. subst d. destruct do1.
-        * destruct (proj1 Hdo1 eq_refl) as [H0|[Hp|Ho]].
-          -- apply do0_true in H0 as [[Hc Hi]|Hnd]; [apply SR_source; assumption|].
-             apply SR_def. destruct (def_ok_dec stg) as [Hok|Hbad]; [contradiction|exact Hbad].
-          -- destruct Hp as [pre [a [post [ra [rna [la [da [Heq [Hfo [Hpre Hst]]]]]]]]]].
-             eapply SR_plain; eassumption.
-          -- destruct Ho as [a [op [up [Ha [Hfo [Hup|Hcs]]]]]].
-             ++ eapply SR_upstream; [exact Ha|exact Hfo|].
-                rewrite Hother; [exact Hup|]. eapply Hown1; eassumption.
-             ++ eapply SR_checksum; eassumption.
-        * apply SR_output. exact Hd2.
-      + intros Hwhy. destruct do1; [inversion Hd2; reflexivity|].
-        assert (Hno : ~ (do0_of H stg = true \/
-                         plain_stale f (sp :: stack) (s_inputs stg) root ran log (do0_of H stg) \/
-                         owned_stale (s_inputs stg) ran1)).
-        { intros Hx. apply Hdo1 in Hx. discriminate. }
-        destruct Hwhy as [Hc Hi|Hbad|pre a post ra rna la da Heq Hfo Hpre Hst|a op up Ha Hfo Hup|a op up Ha Hfo Hcs|Hout].
-        * exfalso. apply Hno. left. apply do0_true. left. split; assumption.
-        * exfalso. apply Hno. left. apply do0_true. right. intros [Hne Heq].
-          destruct Hbad as [Hb|Hb]; contradiction.
-        * exfalso. apply Hno. right. left. exists pre, a, post, ra, rna, la, da. repeat split; assumption.
-        * exfalso. apply Hno. right. right. exists a, op, up. split; [exact Ha|]. split; [exact Hfo|].
-          left. rewrite <- Hother; [exact Hup|]. eapply Hown1; eassumption.
-        * exfalso. apply Hno. right. right. exists a, op, up. split; [exact Ha|]. split; [exact Hfo|].
-          right. exact Hcs.
-        * rewrite Hout in Hd2. inversion Hd2. reflexivity.
+      unfold stale_reason. rewrite <- Hir. destruct do1.
+      + inversion Hd2; subst d. split; [intros _; left; reflexivity|reflexivity].
+      + rewrite Hd2. split.
+        * intros Hdt. subst d. right. reflexivity.
+        * intros [Hx|Hx]; [discriminate|]. inversion Hx. reflexivity.
     - (* the log *)
       rewrite Hlog'. rewrite <- has_cmd_spec. destruct d; cbn [andb].
       + destruct (has_cmd_of stg).
@@ -366,7 +381,7 @@ Section Decision.
 End Decision.
 
 (* the form asked for: any consistent starting state ([log_ok]: the log is duplicate free and
-   inside the domain of ran), sp fresh *)
+   inside the domain of ran; in particular ran = [], log = []), sp fresh *)
 Theorem C09_decision H exec idx c f stack sp stg root ran log root' ran' log' :
   log_ok ran log -> disj ran stack ->
   alookup sp ran = None -> alookup sp idx = Some stg ->
@@ -375,6 +390,8 @@ Theorem C09_decision H exec idx c f stack sp stg root ran log root' ran' log' :
     run_ins H exec idx c true f (sp :: stack) (s_inputs stg) root ran log (do0_of H stg)
       = Ok (root1, ran1, log1, do1) /\
     alookup sp ran' = Some d /\
+    (do1 = true <-> input_reason H exec idx c f stack sp stg root ran log ran') /\
+    (do1 = false -> any_stale H (s_outputs stg) root1 c = Ok d) /\
     (d = true <-> stale_reason H exec idx c f stack sp stg root ran log root1 ran') /\
     (In sp log' <-> d = true /\ s_cmd stg <> []) /\
     ran' = ins_sorted sp d ran1 /\
@@ -812,3 +829,594 @@ Section Frame.
 End Frame.
 
 Print Assumptions C09_executed_or_clean.
+
+(* ------------------------------------------------------------------------------------------ *)
+(* Part 4: a run from a clean state                                                            *)
+(* ------------------------------------------------------------------------------------------ *)
+Section Rerun.
+  Variable H : bytes -> bytes.
+  Variable exec : bytes -> stage -> node -> cache -> res node.
+  Variable idx : index.
+  Variable c : cache.
+
+  Notation runI := (run_ins H exec idx c true).
+  Notation runS := (run_stage H exec).
+
+  (* the state `dud run; dud commit` leaves a stage in *)
+  Record clean0 (root : node) (stg : stage) : Prop := {
+    c0_def : def_ok H stg;
+    c0_plain : forall a, In a (s_inputs stg) -> find_owner idx (a_path a) = None ->
+                         short_top H a root c = Ok true;
+    c0_owned : forall a op up, In a (s_inputs stg) -> find_owner idx (a_path a) = Some (op, up) ->
+                               a_cs a = a_cs up;
+    c0_out : forall o, In o (s_outputs stg) -> short_top H o root c = Ok true }.
+
+  Definition all_clean (root : node) : Prop :=
+    forall sp stg, alookup sp idx = Some stg -> clean0 root stg.
+
+  (* a SOURCE is a stage with a command and no inputs; [dos sp]: sp is a source or downstream of one *)
+  Definition source (s : bytes) : Prop := exists stg, alookup s idx = Some stg /\ is_source stg.
+  Definition dos (sp : bytes) : Prop := exists s, source s /\ upstream idx s sp.
+
+  Lemma dos_edge op sp : edge idx op sp -> dos op -> dos sp.
+  Proof.
+    intros He [s [Hs Hup]]. exists s. split; [exact Hs|]. right. eapply upstream_edge_path; eassumption.
+  Qed.
+
+  Lemma path_last a b : path idx a b -> exists op, upstream idx a op /\ edge idx op b.
+  Proof.
+    intros Hp. induction Hp as [a b Hab|a b c0 Hab Hp IH].
+    - exists a. split; [left; reflexivity|exact Hab].
+    - destruct IH as [op [Hup He]]. exists op. split; [eapply upstream_edge; eassumption|exact He].
+  Qed.
+
+  Lemma dos_inv sp : dos sp -> source sp \/ exists op, edge idx op sp /\ dos op.
+  Proof.
+    intros [s [Hs [Heq|Hp]]]; [subst s; left; exact Hs|].
+    destruct (path_last _ _ Hp) as [op [Hup He]]. right. exists op. split; [exact He|].
+    exists s. split; assumption.
+  Qed.
+
+  (* what is needed of exec: executing a stage (of the scope Sc of the run) that is downstream of a
+     source keeps the stages that are not downstream of a source clean *)
+  Definition exec_pres (Sc : bytes -> Prop) : Prop :=
+    forall X sx root root', alookup X idx = Some sx -> Sc X -> dos X -> exec X sx root c = Ok root' ->
+      forall Y sy, alookup Y idx = Some sy -> ~ dos Y -> clean0 root sy -> clean0 root' sy.
+
+  Lemma framed_wf_pres Sc : exec_framed exec idx c -> idx_wf idx -> exec_pres Sc.
+  Proof.
+    intros Hfr Hwf X sx root root' HX _ HdX Hex Y sy HY HdY Hcl.
+    assert (Hne : X <> Y) by (intros Heq; subst Y; contradiction).
+    assert (Hsame : forall b, (In b (s_outputs sy) \/ (In b (s_inputs sy) /\ find_owner idx (a_path b) = None)) ->
+                              short_top H b root' c = short_top H b root c).
+    { intros b Hb. apply short_top_slot. eapply Hfr; [exact HX|exact Hex|].
+      intros o Ho. eapply Hwf; [exact Hne|exact HX|exact HY|exact Ho|exact Hb]. }
+    split.
+    - apply Hcl.
+    - intros a Ha Hfo. rewrite Hsame; [|right; split; assumption]. apply (c0_plain _ _ Hcl); assumption.
+    - apply Hcl.
+    - intros o Ho. rewrite Hsame; [|left; exact Ho]. apply (c0_out _ _ Hcl). exact Ho.
+  Qed.
+
+  Variable root0 : node.
+
+  Record Inv3 (root : node) (ran : list (bytes * bool)) (log : list bytes) : Prop := {
+    R_ran : forall sp b, alookup sp ran = Some b -> (b = true /\ dos sp) \/ (b = false /\ ~ dos sp);
+    R_clean : forall Y sy, alookup Y idx = Some sy -> ~ dos Y -> clean0 root sy;
+    R_log : forall sp, In sp log <->
+                       exists stg, alookup sp idx = Some stg /\ alookup sp ran = Some true /\ s_cmd stg <> [];
+    R_root : log = [] -> root = root0 }.
+
+  (* the scope of the run: closed under "owner of an input of" *)
+  Variable Sc : bytes -> Prop.
+  Hypothesis Sc_up : forall op sp, edge idx op sp -> Sc sp -> Sc op.
+  Hypothesis pres : exec_pres Sc.
+
+  Definition rerun_spec (f : nat) (stack : list bytes) : Prop :=
+    forall root ran log fin sp root' ran' log',
+      W idx true True ran log fin -> disj ran stack -> Inv3 root ran log -> Sc sp ->
+      runS f idx c true root ran log stack sp = Ok (root', ran', log') ->
+      Inv3 root' ran' log'.
+
+  Definition some_dos_owner (arts : list artifact) : Prop :=
+    exists a op up, In a arts /\ find_owner idx (a_path a) = Some (op, up) /\ dos op.
+  Definition no_dos_owner (arts : list artifact) : Prop :=
+    forall a op up, In a arts -> find_owner idx (a_path a) = Some (op, up) -> ~ dos op.
+
+  Lemma ins_rerun f stack sp stg :
+    rerun_spec f stack -> alookup sp idx = Some stg -> Sc sp ->
+    forall arts root ran log doit fin root' ran' log' doit',
+      incl arts (s_inputs stg) ->
+      W idx true True ran log fin -> disj ran stack -> Inv3 root ran log ->
+      runI f stack arts root ran log doit = Ok (root', ran', log', doit') ->
+      Inv3 root' ran' log' /\
+      (some_dos_owner arts \/ no_dos_owner arts) /\
+      (some_dos_owner arts -> doit' = true) /\
+      (~ dos sp -> doit = false -> doit' = false).
+  Proof.
+    intros IH Hstg HSc.
+    induction arts as [|a r IHr];
+      intros root ran log doit fin root' ran' log' doit' Hincl HW Hd HI Hrun.
+    - cbn [run_ins] in Hrun. inversion Hrun; subst. split; [exact HI|]. split; [|split].
+      + right. intros a op up Ha. destruct Ha.
+      + intros [a [op [up [Ha _]]]]. destruct Ha.
+      + intros _ Hf. exact Hf.
+    - assert (Hinclr : incl r (s_inputs stg)) by (intros x Hx; apply Hincl; right; exact Hx).
+      assert (Ha : In a (s_inputs stg)) by (apply Hincl; left; reflexivity).
+      cbn [run_ins] in Hrun.
+      destruct (find_owner idx (a_path a)) as [[op up]|] eqn:Hfo.
+      + destruct (runS f idx c true root ran log stack op) as [[[root1 ran1] log1]|] eqn:Hsub; [|discriminate].
+        destruct (run_facts H exec idx c True _ _ _ _ _ _ _ _ _ _ HW Hd Hsub)
+          as [fin1 [HW1 [Hd1 [Hm1 [Hop1 _]]]]].
+        assert (Hedge : edge idx op sp).
+        { exists stg, a, up. split; [exact Hstg|]. split; [exact Ha|exact Hfo]. }
+        pose proof (IH _ _ _ _ _ _ _ _ HW Hd HI (Sc_up _ _ Hedge HSc) Hsub) as HI1.
+        destruct (IHr _ _ _ _ _ _ _ _ _ Hinclr HW1 Hd1 HI1 Hrun) as [HI2 [Hdec [HA HB]]].
+        destruct (alookup op ran1) as [b|] eqn:Hb; [|congruence].
+        pose proof (R_ran _ _ _ HI1 op b Hb) as Hbd.
+        split; [exact HI2|]. split; [|split].
+        * destruct Hbd as [[_ Hdo]|[_ Hnd]].
+          -- left. exists a, op, up. split; [left; reflexivity|]. split; assumption.
+          -- destruct Hdec as [[a0 [op0 [up0 [Ha0 Hrest]]]]|Hno].
+             ++ left. exists a0, op0, up0. split; [right; exact Ha0|exact Hrest].
+             ++ right. intros a0 op0 up0 [Ha0|Ha0] Hfo0.
+                ** subst a0. rewrite Hfo in Hfo0. inversion Hfo0; subst op0 up0. exact Hnd.
+                ** eapply Hno; eassumption.
+        * intros [a0 [op0 [up0 [[Ha0|Ha0] [Hfo0 Hdos0]]]]].
+          -- subst a0. rewrite Hfo in Hfo0. inversion Hfo0; subst op0 up0.
+             apply (run_ins_mono H exec idx c _ _ _ _ _ _ _ _ _ _ _ Hrun).
+             destruct Hbd as [[Hbt _]|[_ Hnd]]; [|contradiction]. subst b. rewrite orb_true_r. reflexivity.
+          -- apply HA. exists a0, op0, up0. split; [exact Ha0|]. split; assumption.
+        * intros Hnd Hf. apply HB; [exact Hnd|].
+          assert (Hnop : ~ dos op) by (intros Hx; apply Hnd; eapply dos_edge; eassumption).
+          destruct Hbd as [[_ Hdo]|[Hbf _]]; [contradiction|].
+          pose proof (c0_owned _ _ (R_clean _ _ _ HI sp stg Hstg Hnd) a op up Ha Hfo) as Hcs.
+          apply beqb_eq in Hcs. rewrite Hf, Hbf, Hcs. reflexivity.
+      + destruct (short_top H a root c) as [cm|] eqn:Hst; [|discriminate].
+        destruct (IHr _ _ _ _ _ _ _ _ _ Hinclr HW Hd HI Hrun) as [HI2 [Hdec [HA HB]]].
+        split; [exact HI2|]. split; [|split].
+        * destruct Hdec as [[a0 [op0 [up0 [Ha0 Hrest]]]]|Hno].
+          -- left. exists a0, op0, up0. split; [right; exact Ha0|exact Hrest].
+          -- right. intros a0 op0 up0 [Ha0|Ha0] Hfo0; [subst a0; congruence|eapply Hno; eassumption].
+        * intros [a0 [op0 [up0 [[Ha0|Ha0] [Hfo0 Hdos0]]]]]; [subst a0; congruence|].
+          apply HA. exists a0, op0, up0. split; [exact Ha0|]. split; assumption.
+        * intros Hnd Hf. apply HB; [exact Hnd|].
+          pose proof (c0_plain _ _ (R_clean _ _ _ HI sp stg Hstg Hnd) a Ha Hfo) as Hcm.
+          rewrite Hst in Hcm. inversion Hcm; subst cm. rewrite Hf. reflexivity.
+  Qed.
+
+  Lemma is_source_dec stg : is_source stg \/ ~ is_source stg.
+  Proof.
+    unfold is_source. destruct (s_cmd stg) as [|x r]; [right; intros [Hc _]; congruence|].
+    destruct (s_inputs stg) as [|a l]; [left; split; [discriminate|reflexivity]|].
+    right. intros [_ Hi]. discriminate.
+  Qed.
+
+  Lemma rerun_post : forall f stack, rerun_spec f stack.
+  Proof.
+    induction f as [|f IH]; intros stack root ran log fin sp root' ran' log' HW Hd HI HSc Hrun.
+    { simpl in Hrun. discriminate. }
+    rewrite run_stage_S in Hrun.
+    destruct (alookup sp ran) as [b0|] eqn:Hfresh.
+    { inversion Hrun; subst. exact HI. }
+    destruct (mem sp stack) eqn:Hmem; [discriminate|].
+    destruct (alookup sp idx) as [stg|] eqn:Hstg; [|discriminate].
+    destruct (runI f (sp :: stack) (s_inputs stg) root ran log (do0_of H stg))
+      as [[[[root1 ran1] log1] do1]|] eqn:Hins; [|discriminate].
+    assert (Hds : disj ran (sp :: stack)).
+    { intros s [Hs|Hs]; [subst s; exact Hfresh|apply Hd; exact Hs]. }
+    destruct (ins_facts H exec idx c True _ _ _ _ _ _ _ _ _ _ _ _ _ _ Hstg (incl_refl _) HW Hds Hins)
+      as [fin1 [HW1 [Hd1 [Hm1 [Hown1 _]]]]].
+    destruct (ins_rerun f (sp :: stack) sp stg (IH (sp :: stack)) Hstg HSc _ _ _ _ _ _ _ _ _ _
+                        (incl_refl _) HW Hds HI Hins) as [HI1 [Hdec [HA HB]]].
+    assert (Hsp1 : alookup sp ran1 = None) by (apply Hd1; left; reflexivity).
+    unfold run_finish in Hrun.
+    destruct (if do1 then Ok true else any_stale H (s_outputs stg) root1 c) as [d|] eqn:Hd2; [|discriminate].
+    (* dos sp is decided by the visit *)
+    assert (Hdos : dos sp \/ ~ dos sp).
+    { destruct (is_source_dec stg) as [Hsrc|Hnsrc].
+      - left. exists sp. split; [exists stg; split; assumption|left; reflexivity].
+      - destruct Hdec as [[a [op [up [Ha [Hfo Hdo]]]]]|Hno].
+        + left. eapply dos_edge; [|exact Hdo]. exists stg, a, up. split; [exact Hstg|]. split; assumption.
+        + right. intros Hx. apply dos_inv in Hx as [[stg' [Hstg' Hsrc]]|[op [[stg' [a [up [Hstg' [Ha Hfo]]]]] Hdo]]].
+          * rewrite Hstg in Hstg'. inversion Hstg'; subst stg'. contradiction.
+          * rewrite Hstg in Hstg'. inversion Hstg'; subst stg'. eapply Hno; eassumption. }
+    assert (Hdd : (d = true /\ dos sp) \/ (d = false /\ ~ dos sp)).
+    { destruct Hdos as [Hy|Hn].
+      - left. split; [|exact Hy].
+        assert (Hdo1 : do1 = true).
+        { destruct (dos_inv _ Hy) as [[stg' [Hstg' Hsrc]]|[op [[stg' [a [up [Hstg' [Ha Hfo]]]]] Hdo]]].
+          - rewrite Hstg in Hstg'. inversion Hstg'; subst stg'.
+            apply (run_ins_mono H exec idx c _ _ _ _ _ _ _ _ _ _ _ Hins). apply do0_true. left. exact Hsrc.
+          - rewrite Hstg in Hstg'. inversion Hstg'; subst stg'. apply HA. exists a, op, up. repeat split; assumption. }
+        subst do1. inversion Hd2. reflexivity.
+      - right. split; [|exact Hn].
+        pose proof (R_clean _ _ _ HI sp stg Hstg Hn) as Hcl.
+        assert (Hd0 : do0_of H stg = false).
+        { apply do0_false. split; [|apply Hcl]. intros Hsrc. apply Hn.
+          exists sp. split; [exists stg; split; assumption|left; reflexivity]. }
+        rewrite (HB Hn Hd0) in Hd2.
+        pose proof (R_clean _ _ _ HI1 sp stg Hstg Hn) as Hcl1.
+        rewrite (proj2 (any_stale_false H c (s_outputs stg) root1) (c0_out _ _ Hcl1)) in Hd2.
+        inversion Hd2. reflexivity. }
+    assert (Hran2 : forall s b, alookup s (ins_sorted sp d ran1) = Some b ->
+                                (b = true /\ dos s) \/ (b = false /\ ~ dos s)).
+    { intros s b Hs. destruct (bytes_dec s sp) as [He|Hne].
+      - subst s. rewrite alookup_ins_same in Hs. inversion Hs; subst b. exact Hdd.
+      - rewrite alookup_ins_other in Hs by exact Hne. eapply (R_ran _ _ _ HI1). exact Hs. }
+    assert (Hlog2 : forall lg, lg = (if d && has_cmd_of stg then sp :: log1 else log1) ->
+              forall s, In s lg <-> exists stg0, alookup s idx = Some stg0 /\
+                                       alookup s (ins_sorted sp d ran1) = Some true /\ s_cmd stg0 <> []).
+    { intros lg Hlg s. subst lg. destruct (bytes_dec s sp) as [He|Hne].
+      - subst s. split.
+        + intros Hin. destruct (d && has_cmd_of stg) eqn:Hdc.
+          * apply andb_true_iff in Hdc as [Hdt Hc]. subst d. exists stg. split; [exact Hstg|].
+            split; [apply alookup_ins_same|apply has_cmd_spec; exact Hc].
+          * exfalso. apply (R_log _ _ _ HI1) in Hin as [stg0 [_ [Hx _]]]. congruence.
+        + intros [stg0 [Hstg0 [Hx Hc]]]. rewrite Hstg in Hstg0. inversion Hstg0; subst stg0.
+          rewrite alookup_ins_same in Hx. inversion Hx; subst d. apply has_cmd_spec in Hc. rewrite Hc.
+          left. reflexivity.
+      - rewrite alookup_ins_other by exact Hne. rewrite <- (R_log _ _ _ HI1).
+        destruct (d && has_cmd_of stg); [|reflexivity]. split.
+        + intros [Hx|Hx]; [congruence|exact Hx].
+        + intros Hx. right. exact Hx. }
+    destruct (d && has_cmd_of stg) eqn:Hdc.
+    - apply andb_true_iff in Hdc as [Hdt Hcmd]. subst d.
+      destruct (exec sp stg root1 c) as [root2|] eqn:Hex; [|discriminate]. inversion Hrun; subst root' ran' log'.
+      assert (Hy : dos sp) by (destruct Hdd as [[_ Hy]|[Hf _]]; [exact Hy|discriminate]).
+      split.
+      + exact Hran2.
+      + intros Y sy HY HnY. eapply pres; [exact Hstg|exact HSc|exact Hy|exact Hex|exact HY|exact HnY|].
+        eapply (R_clean _ _ _ HI1); eassumption.
+      + apply Hlog2. reflexivity.
+      + discriminate.
+    - inversion Hrun; subst root' ran' log'. split.
+      + exact Hran2.
+      + apply HI1.
+      + apply Hlog2. reflexivity.
+      + apply HI1.
+  Qed.
+
+  Lemma rerun_targets fuel : forall ts root ran log fin root' ran' log',
+    (forall t, In t ts -> Sc t) ->
+    W idx true True ran log fin -> Inv3 root ran log ->
+    run_targets H exec idx c true fuel ts (Ok (root, ran, log)) = Ok (root', ran', log') ->
+    Inv3 root' ran' log'.
+  Proof.
+    induction ts as [|t r IH]; intros root ran log fin root' ran' log' Hts HW HI Hrun.
+    - inversion Hrun; subst. exact HI.
+    - rewrite run_targets_cons in Hrun.
+      destruct (runS fuel idx c true root ran log [] t) as [[[root1 ran1] log1]|] eqn:Hone.
+      2:{ rewrite run_targets_Err in Hrun. discriminate. }
+      destruct (run_facts H exec idx c True _ _ _ _ _ _ _ _ _ _ HW (disj_nil ran) Hone)
+        as [fin1 [HW1 _]].
+      eapply IH; [intros t' Ht'; apply Hts; right; exact Ht'|exact HW1| |exact Hrun].
+      eapply rerun_post; [exact HW|apply disj_nil|exact HI|apply Hts; left; reflexivity|exact Hone].
+  Qed.
+End Rerun.
+
+Section RerunTheorems.
+  Variable H : bytes -> bytes.
+  Variable exec : bytes -> stage -> node -> cache -> res node.
+  Variable idx : index.
+  Variable c : cache.
+
+  Lemma Inv3_init root : all_clean H idx c root -> Inv3 H idx c root root [] [].
+  Proof.
+    intros Hall. split.
+    - intros sp b Hs. discriminate.
+    - intros Y sy HY _. eapply Hall. exact HY.
+    - intros sp. split; [intros Hs; destruct Hs|]. intros [stg [_ [Hs _]]]. discriminate.
+    - reflexivity.
+  Qed.
+
+  Lemma Inv3_out root0 root' ran' log' :
+    Inv3 H idx c root0 root' ran' log' ->
+    (forall sp b, alookup sp ran' = Some b -> (b = true <-> dos idx sp)) /\
+    (forall sp, In sp log' <->
+                exists stg, alookup sp idx = Some stg /\ alookup sp ran' = Some true /\ s_cmd stg <> []) /\
+    (forall Y sy, alookup Y idx = Some sy -> ~ dos idx Y -> clean0 H idx c root' sy).
+  Proof.
+    intros HI. split; [|split; [apply HI|apply HI]].
+    intros sp b Hs. destruct (R_ran _ _ _ _ _ _ _ HI sp b Hs) as [[Hb Hd]|[Hb Hd]]; subst b.
+    - split; [intros _; exact Hd|reflexivity].
+    - split; [discriminate|intros Hx; contradiction].
+  Qed.
+
+  (* From a state in which every stage is clean: doRun is set exactly for the stages that are a
+     source (command, no inputs) or downstream of one; those of them that have a command are
+     executed; every other stage stays clean. *)
+  Theorem C09_rerun_sources fuel ts root root' ran' log' :
+    exec_framed exec idx c -> idx_wf idx -> all_clean H idx c root ->
+    run_targets H exec idx c true fuel ts (Ok (root, [], [])) = Ok (root', ran', log') ->
+    (forall sp b, alookup sp ran' = Some b -> (b = true <-> dos idx sp)) /\
+    (forall sp, In sp log' <->
+                exists stg, alookup sp idx = Some stg /\ alookup sp ran' = Some true /\ s_cmd stg <> []) /\
+    (forall Y sy, alookup Y idx = Some sy -> ~ dos idx Y -> clean0 H idx c root' sy).
+  Proof.
+    intros Hfr Hwf Hall Hrun. apply (Inv3_out root).
+    eapply (rerun_targets H exec idx c root (fun _ => True)); [auto|apply framed_wf_pres; assumption| |apply W_nil|apply Inv3_init; exact Hall|exact Hrun].
+    auto.
+  Qed.
+
+  (* the statement of the task holds when no source owns an input of a stage: then exactly the
+     visited sources are executed, and no stage that has inputs is *)
+  Theorem C09_rerun_sources_only fuel ts root root' ran' log' :
+    exec_framed exec idx c -> idx_wf idx -> all_clean H idx c root ->
+    (forall s b, source idx s -> ~ edge idx s b) ->
+    run_targets H exec idx c true fuel ts (Ok (root, [], [])) = Ok (root', ran', log') ->
+    (forall sp, In sp log' <-> alookup sp ran' <> None /\ source idx sp) /\
+    (forall sp stg b, alookup sp ran' = Some b -> alookup sp idx = Some stg ->
+                      (b = true <-> is_source stg)) /\
+    (forall sp stg, alookup sp idx = Some stg -> s_inputs stg <> [] -> ~ In sp log').
+  Proof.
+    intros Hfr Hwf Hall Hiso Hrun.
+    destruct (C09_rerun_sources fuel ts root root' ran' log' Hfr Hwf Hall Hrun) as [Hran [Hlog _]].
+    assert (Hdos : forall sp, dos idx sp <-> source idx sp).
+    { intros sp. split.
+      - intros [s [Hs [Heq|Hp]]]; [subst s; exact Hs|]. exfalso.
+        destruct Hp as [a b He|a b c0 He _]; eapply Hiso; eassumption.
+      - intros Hs. exists sp. split; [exact Hs|left; reflexivity]. }
+    assert (Hsrc : forall sp stg, alookup sp idx = Some stg -> (source idx sp <-> is_source stg)).
+    { intros sp stg Hstg. split.
+      - intros [stg' [Hstg' Hs]]. rewrite Hstg in Hstg'. inversion Hstg'; subst stg'. exact Hs.
+      - intros Hs. exists stg. split; assumption. }
+    split; [|split].
+    - intros sp. rewrite Hlog. split.
+      + intros [stg [Hstg [Ht Hc]]]. split; [congruence|]. apply Hdos. apply (Hran sp true Ht). reflexivity.
+      + intros [Hv Hs]. pose proof Hs as [stg [Hstg [Hc Hi]]]. exists stg. split; [exact Hstg|]. split; [|exact Hc].
+        destruct (alookup sp ran') as [b|] eqn:Hb; [|congruence].
+        assert (Hbt : b = true) by (apply (Hran sp b Hb); apply Hdos; exact Hs). congruence.
+    - intros sp stg b Hb Hstg. rewrite (Hran sp b Hb), Hdos. apply Hsrc. exact Hstg.
+    - intros sp stg Hstg Hin Hl. apply Hlog in Hl as [stg' [Hstg' [Ht _]]].
+      assert (Hs : source idx sp) by (apply Hdos; apply (Hran sp true Ht); reflexivity).
+      apply (Hsrc sp stg Hstg) in Hs. destruct Hs as [_ Hi]. contradiction.
+  Qed.
+
+  (* no source at or upstream of a target: nothing is executed, the workspace is untouched, every
+     visited stage is reported up to date.  No assumption on exec or on the index. *)
+  Theorem C09_rerun_quiet fuel ts root root' ran' log' :
+    all_clean H idx c root ->
+    (forall s t, source idx s -> In t ts -> ~ clos_refl_trans bytes (edge idx) s t) ->
+    run_targets H exec idx c true fuel ts (Ok (root, [], [])) = Ok (root', ran', log') ->
+    log' = [] /\ root' = root /\ forall sp b, alookup sp ran' = Some b -> b = false.
+  Proof.
+    intros Hall Hnosrc Hrun.
+    set (Sc := fun s : bytes => exists t, In t ts /\ upstream idx s t).
+    assert (Hnd : forall s, Sc s -> ~ dos idx s).
+    { intros s [t [Ht Hup]] [s0 [Hs0 Hup0]]. apply (Hnosrc s0 t Hs0 Ht).
+      apply upstream_clos in Hup, Hup0. eapply rt_trans; eassumption. }
+    assert (HI : Inv3 H idx c root root' ran' log').
+    { eapply (rerun_targets H exec idx c root Sc); [| | |apply W_nil|apply Inv3_init; exact Hall|exact Hrun].
+      - intros op sp He [t [Ht Hup]]. exists t. split; [exact Ht|]. eapply upstream_edge; eassumption.
+      - intros X sx r r' HX HSc Hd. exfalso. eapply Hnd; eassumption.
+      - intros t Ht. exists t. split; [exact Ht|left; reflexivity]. }
+    assert (Hvis : forall sp b, alookup sp ran' = Some b -> b = false).
+    { intros sp b Hb.
+      destruct (C08_scope H exec idx c true fuel ts root [] [] root' ran' log' sp (log_ok_nil) Hrun)
+        as [Hx|[t [Ht Hup]]]; [congruence|exfalso; apply Hx; reflexivity|].
+      destruct (R_ran _ _ _ _ _ _ _ HI sp b Hb) as [[_ Hd]|[Hbf _]]; [|exact Hbf].
+      exfalso. apply (Hnd sp); [|exact Hd]. exists t. split; [exact Ht|apply upstream_clos; exact Hup]. }
+    assert (Hlog : log' = []).
+    { destruct log' as [|x l]; [reflexivity|]. exfalso.
+      destruct (proj1 (R_log _ _ _ _ _ _ _ HI x) (or_introl eq_refl)) as [stg [_ [Ht _]]].
+      apply Hvis in Ht. discriminate. }
+    split; [exact Hlog|]. split; [apply (R_root _ _ _ _ _ _ _ HI); exact Hlog|exact Hvis].
+  Qed.
+End RerunTheorems.
+
+Print Assumptions C09_rerun_sources.
+Print Assumptions C09_rerun_sources_only.
+Print Assumptions C09_rerun_quiet.
+
+(* ------------------------------------------------------------------------------------------ *)
+(* Part 5: the hypotheses are satisfiable; examples and counterexamples                        *)
+(* ------------------------------------------------------------------------------------------ *)
+
+(* the frame premise as literally worded in the task ("every path that is not equal to or below an
+   output keeps its entry") forces exec to be the identity on the root as soon as no output is the
+   root itself: take p = [].  This is why [exec_framed] is stated with [incomp]. *)
+Definition exec_framed_literal (exec : bytes -> stage -> node -> cache -> res node) (idx : index) (c : cache) : Prop :=
+  forall sp stg root root',
+    alookup sp idx = Some stg -> exec sp stg root c = Ok root' ->
+    forall p, (forall o, In o (s_outputs stg) -> is_prefix (comps (a_path o)) p = false) -> slot_eq root root' p.
+
+Lemma exec_framed_literal_identity exec idx c sp stg root root' :
+  exec_framed_literal exec idx c -> alookup sp idx = Some stg ->
+  (forall o, In o (s_outputs stg) -> comps (a_path o) <> []) ->
+  exec sp stg root c = Ok root' -> root' = root.
+Proof.
+  intros Hlit Hstg Hne Hex.
+  destruct (Hlit sp stg root root' Hstg Hex []) as [Hg _].
+  - intros o Ho. specialize (Hne o Ho). destruct (comps (a_path o)); [congruence|reflexivity].
+  - cbn [get] in Hg. congruence.
+Qed.
+
+(* a boolean check of idx_wf *)
+Definition incompb (p q : list bytes) : bool := negb (is_prefix p q) && negb (is_prefix q p).
+
+Definition idx_wfb (idx : index) : bool :=
+  forallb (fun X => forallb (fun Y =>
+    beqb (fst X) (fst Y) ||
+    forallb (fun o => forallb (fun b => incompb (comps (a_path o)) (comps (a_path b)))
+                              (s_outputs (snd Y) ++
+                               filter (fun b => match find_owner idx (a_path b) with None => true | Some _ => false end)
+                                      (s_inputs (snd Y))))
+            (s_outputs (snd X))) idx) idx.
+
+Lemma idx_wfb_sound idx : idx_wfb idx = true -> idx_wf idx.
+Proof.
+  intros Hb X sx Y sy o b Hne HX HY Ho Hbin.
+  unfold idx_wfb in Hb. rewrite forallb_forall in Hb.
+  specialize (Hb (X, sx) (alookup_In _ _ _ HX)). rewrite forallb_forall in Hb.
+  specialize (Hb (Y, sy) (alookup_In _ _ _ HY)). cbn [fst snd] in Hb.
+  apply orb_true_iff in Hb as [Hb|Hb]; [apply beqb_eq in Hb; contradiction|].
+  rewrite forallb_forall in Hb. specialize (Hb o Ho). rewrite forallb_forall in Hb.
+  assert (Hin : In b (s_outputs sy ++
+                      filter (fun b => match find_owner idx (a_path b) with None => true | Some _ => false end)
+                             (s_inputs sy))).
+  { apply in_or_app. destruct Hbin as [Hb1|[Hb1 Hfo]]; [left; exact Hb1|right].
+    apply filter_In. split; [exact Hb1|]. rewrite Hfo. reflexivity. }
+  specialize (Hb b Hin). unfold incompb in Hb. apply andb_true_iff in Hb as [H1 H2].
+  apply negb_true_iff in H1, H2. split; assumption.
+Qed.
+
+(* an exec that writes a regular file (command ++ path) at every output path *)
+Definition ex_step (stg : stage) (acc : res node) (o : artifact) : res node :=
+  match acc with
+  | Ok r => match put r (comps (a_path o)) (Some (File (s_cmd stg ++ a_path o))) with
+            | Some r' => Ok r'
+            | None => Err
+            end
+  | Err => Err
+  end.
+Definition ex_exec (sp : bytes) (stg : stage) (root : node) (c : cache) : res node :=
+  fold_left (ex_step stg) (s_outputs stg) (Ok root).
+
+Lemma ex_step_Err stg outs : fold_left (ex_step stg) outs Err = Err.
+Proof. induction outs as [|o r IH]; [reflexivity|exact IH]. Qed.
+
+Lemma ex_fold_framed stg : forall outs root root',
+  fold_left (ex_step stg) outs (Ok root) = Ok root' ->
+  forall p, (forall o, In o outs -> incomp (comps (a_path o)) p) -> slot_eq root root' p.
+Proof.
+  induction outs as [|o r IH]; intros root root' Hf p Hp.
+  - inversion Hf; subst. split; reflexivity.
+  - cbn [fold_left ex_step] in Hf.
+    destruct (put root (comps (a_path o)) (Some (File (s_cmd stg ++ a_path o)))) as [r1|] eqn:Hput.
+    2:{ rewrite ex_step_Err in Hf. discriminate. }
+    destruct (put_frame _ _ _ _ p Hput (Hp o (or_introl eq_refl))) as [Hg1 Hb1].
+    destruct (IH _ _ Hf p (fun o' Ho' => Hp o' (or_intror Ho'))) as [Hg2 Hb2].
+    split; congruence.
+Qed.
+
+Lemma ex_exec_framed idx c : exec_framed ex_exec idx c.
+Proof.
+  intros sp stg root root' _ Hex p Hp. eapply ex_fold_framed; [exact Hex|exact Hp].
+Qed.
+
+Module C09Examples.
+  Local Open Scope N_scope.
+  Definition idH : bytes -> bytes := fun b => b.
+  Definition art (p : bytes) : artifact := mkArt [] p false false false.
+  Definition sA : bytes := [97].  Definition sB : bytes := [98].
+  Definition f_in : bytes := [105; 110]. Definition fx : bytes := [120]. Definition fy : bytes := [121].
+  Definition cmd : bytes := [116; 116; 116].
+
+  (* ---- A: in -> x ; B: x -> y.  `dud run B; dud commit B; dud run B` ---- *)
+  Definition idx0 : index :=
+    [ (sA, mkStage [] cmd [] [art f_in] [art fx]); (sB, mkStage [] cmd [] [art fx] [art fy]) ].
+  Definition root0 : node := Dir [(f_in, File [1; 2; 3])].
+
+  Definition run1 := Eval vm_compute in run_targets idH ex_exec idx0 [] true 3 [sB] (Ok (root0, [], [])).
+  Definition root1 := Eval vm_compute in match run1 with Ok (r, _, _) => r | Err => Other end.
+  Definition cm := Eval vm_compute in commit_stage idH 3 (mkI idx0 root1 []) Link [] [] sB.
+  Definition idx1 := Eval vm_compute in match cm with Ok (st, _) => i_idx st | Err => [] end.
+  Definition root2 := Eval vm_compute in match cm with Ok (st, _) => i_root st | Err => Other end.
+  Definition c2 := Eval vm_compute in match cm with Ok (st, _) => i_cache st | Err => [] end.
+
+  (* the first run executes A then B (no checksums yet: "definition modified") *)
+  Example chain_first_run :
+    run_targets idH ex_exec idx0 [] true 3 [sB] (Ok (root0, [], []))
+    = Ok (root1, [(sA, true); (sB, true)], [sB; sA]).
+  Proof. vm_compute. reflexivity. Qed.
+
+  Example chain_commit :
+    commit_stage idH 3 (mkI idx0 root1 []) Link [] [] sB = Ok (mkI idx1 root2 c2, [sB; sA]).
+  Proof. vm_compute. reflexivity. Qed.
+
+  (* the second run is quiet *)
+  Example chain_second_run_quiet :
+    run_targets idH ex_exec idx1 c2 true 3 [sB] (Ok (root2, [], []))
+    = Ok (root2, [(sA, false); (sB, false)], []).
+  Proof. vm_compute. reflexivity. Qed.
+
+  (* the premises of the theorems hold of this example *)
+  Example chain_wf : idx_wf idx1.
+  Proof. apply idx_wfb_sound. vm_compute. reflexivity. Qed.
+
+  Example chain_framed : exec_framed ex_exec idx1 c2.
+  Proof. apply ex_exec_framed. Qed.
+
+  Example chain_all_clean : all_clean idH idx1 c2 root2.
+  Proof.
+    intros sp stg Hs. apply alookup_In in Hs. destruct Hs as [Hs|[Hs|[]]]; inversion Hs; subst sp stg; split.
+    - split; [discriminate|vm_compute; reflexivity].
+    - intros a [Ha|[]] Hfo; subst a; vm_compute; reflexivity.
+    - intros a op up [Ha|[]] Hfo; subst a. vm_compute in Hfo. discriminate Hfo.
+    - intros o [Ho|[]]; subst o; vm_compute; reflexivity.
+    - split; [discriminate|vm_compute; reflexivity].
+    - intros a [Ha|[]] Hfo; subst a; vm_compute; reflexivity.
+    - intros a op up [Ha|[]] Hfo; subst a. vm_compute in Hfo. inversion Hfo; subst op up. reflexivity.
+    - intros o [Ho|[]]; subst o; vm_compute; reflexivity.
+  Qed.
+
+  Example chain_no_source s t : source idx1 s -> In t [sB] -> ~ clos_refl_trans bytes (edge idx1) s t.
+  Proof.
+    intros [stg [Hs [_ Hi]]] _ _. apply alookup_In in Hs.
+    destruct Hs as [Hs|[Hs|[]]]; inversion Hs; subst s stg; discriminate Hi.
+  Qed.
+
+  (* the quiet second run, by the theorem *)
+  Example chain_second_run_quiet_thm root' ran' log' :
+    run_targets idH ex_exec idx1 c2 true 3 [sB] (Ok (root2, [], [])) = Ok (root', ran', log') ->
+    log' = [] /\ root' = root2 /\ forall sp b, alookup sp ran' = Some b -> b = false.
+  Proof. apply C09_rerun_quiet; [exact chain_all_clean|exact chain_no_source]. Qed.
+
+  (* C09_executed_or_clean instantiated on the first run: everything ran, in order *)
+  Example chain_first_run_thm :
+    In sB [sB; sA] /\ forall op, edge idx0 op sB -> In op [sB; sA] ->
+                                  exists p q r, rev [sB; sA] = p ++ op :: q ++ sB :: r.
+  Proof.
+    assert (Hwf0 : idx_wf idx0) by (apply idx_wfb_sound; vm_compute; reflexivity).
+    destruct (C09_executed_or_clean idH ex_exec idx0 [] (ex_exec_framed idx0 []) Hwf0 3 [sB] root0 _ _ _
+                                    chain_first_run) as [_ [_ [Hrun _]]].
+    apply (Hrun sB (mkStage [] cmd [] [art fx] [art fy])); [reflexivity|reflexivity|discriminate].
+  Qed.
+
+  (* ---- COUNTEREXAMPLE to "a run straight after run; commit executes no stage that has inputs":
+     A: (no inputs) -> x ; B: x -> y.  A is a source, so A and B are executed again. ---- *)
+  Definition jdx0 : index :=
+    [ (sA, mkStage [] cmd [] [] [art fx]); (sB, mkStage [] cmd [] [art fx] [art fy]) ].
+  Definition q1 := Eval vm_compute in run_targets idH ex_exec jdx0 [] true 3 [sB] (Ok (Dir [], [], [])).
+  Definition qroot1 := Eval vm_compute in match q1 with Ok (r, _, _) => r | Err => Other end.
+  Definition qcm := Eval vm_compute in commit_stage idH 3 (mkI jdx0 qroot1 []) Link [] [] sB.
+  Definition jdx1 := Eval vm_compute in match qcm with Ok (st, _) => i_idx st | Err => [] end.
+  Definition qroot2 := Eval vm_compute in match qcm with Ok (st, _) => i_root st | Err => Other end.
+  Definition qc2 := Eval vm_compute in match qcm with Ok (st, _) => i_cache st | Err => [] end.
+
+  Example source_chain_commit :
+    commit_stage idH 3 (mkI jdx0 qroot1 []) Link [] [] sB = Ok (mkI jdx1 qroot2 qc2, [sB; sA]).
+  Proof. vm_compute. reflexivity. Qed.
+
+  Example source_chain_all_clean : all_clean idH jdx1 qc2 qroot2.
+  Proof.
+    intros sp stg Hs. apply alookup_In in Hs. destruct Hs as [Hs|[Hs|[]]]; inversion Hs; subst sp stg; split.
+    - split; [discriminate|vm_compute; reflexivity].
+    - intros a [].
+    - intros a op up [].
+    - intros o [Ho|[]]; subst o; vm_compute; reflexivity.
+    - split; [discriminate|vm_compute; reflexivity].
+    - intros a [Ha|[]] Hfo; subst a; vm_compute; reflexivity.
+    - intros a op up [Ha|[]] Hfo; subst a. vm_compute in Hfo. inversion Hfo; subst op up. reflexivity.
+    - intros o [Ho|[]]; subst o; vm_compute; reflexivity.
+  Qed.
+
+  (* every stage is clean, yet B (which has inputs) is executed *)
+  Example source_chain_second_run_not_quiet :
+    exists root', run_targets idH ex_exec jdx1 qc2 true 3 [sB] (Ok (qroot2, [], []))
+                  = Ok (root', [(sA, true); (sB, true)], [sB; sA]).
+  Proof. eexists. vm_compute. reflexivity. Qed.
+
+  (* ---- the literal frame premise is not satisfied by ex_exec (nor by any exec that writes) ---- *)
+  Example literal_frame_fails : ~ exec_framed_literal ex_exec idx0 [].
+  Proof.
+    intros Hlit.
+    assert (Hex : ex_exec sA (mkStage [] cmd [] [art f_in] [art fx]) root0 []
+                  = Ok (Dir [(f_in, File [1; 2; 3]); (fx, File (cmd ++ fx))])) by (vm_compute; reflexivity).
+    assert (Heq : Dir [(f_in, File [1; 2; 3]); (fx, File (cmd ++ fx))] = root0).
+    { eapply (exec_framed_literal_identity ex_exec idx0 [] sA _ root0 _ Hlit); [reflexivity| |exact Hex].
+      intros o [Ho|[]]; subst o. vm_compute. discriminate. }
+    unfold root0 in Heq. discriminate Heq.
+  Qed.
+End C09Examples.
